@@ -35,6 +35,7 @@ class C12:
     id = 'C12'
     judge_module = 'Run.JudgeC12'
     rule = ('generated curves (all families of gen.curve incl. plateaus / grids that make np.corrcoef NaN) x interior knee subsets with >= 2 knees '
+            '(plus, for filter_clusters, sampled subsets that contain a curve end) '
             '(exhaustive for small n, sampled above) x 4 linkages x merge thresholds drawn from the observed normalised knee gaps (exact ties), '
             'their nextafter neighbours and a grid x 4 ranking modes + the corner variant (modes round-robin in the quick tier, all on every '
             '(curve, subset) of the small-n stratum in the thorough tier); non-trivial = at least one cluster with >= 2 members; '
@@ -76,13 +77,17 @@ class C12:
             n = rng.randint(6, hi)
             fam, pts = gen.curve(rng, n) if rng.random() < 0.8 else gen.mrc_curve(rng, n)
             k = rng.randint(2, n - 2)
+            mode = MODES[cfg % 5]
+            # filter_clusters accepts knees at the curve ends (the hull branch clamps the span's neighbours); the corner
+            # variant reads both neighbours of a knee, so its knees are interior
+            klo, khi = (1, n - 1) if (mode == 'corner' or rng.random() < 0.7) else (0, n)
+            k = min(k, khi - klo)
             if rng.random() < 0.5:
                 # runs of adjacent knees: large clusters
-                start = rng.randint(1, n - 1 - k)
+                start = rng.randint(klo, khi - k)
                 ks = list(range(start, start + k))
             else:
-                ks = sorted(rng.sample(range(1, n - 1), k))
-            mode = MODES[cfg % 5]
+                ks = sorted(rng.sample(range(klo, khi), k))
             link = LINKS[(cfg // 5) % 4]
             cfg += 1
             cases.append({'points': pts, 'family': fam, 'knees': ks, 'link': link, 't': rng.choice(thresholds(rng, pts, ks)), 'mode': mode})
@@ -148,8 +153,9 @@ class C12:
                     continue
                 for j in cc:
                     if j in hw:
-                        for (l, r) in ((a - 1, j), (j, b + 1)):
-                            if (l, r) not in sd and 0 <= l and r < len(P):
+                        lo, hi = max(a - 1, 0), min(b + 1, len(P) - 1)
+                        for (l, r) in ((lo, j), (j, hi)):
+                            if (l, r) not in sd:
                                 seg = P[l:r + 1]
                                 st4, v = call(lambda: np.sum(lf.shortest_distance_points(seg, seg[0], seg[-1])))
                                 if st4 == 'ok':
@@ -209,8 +215,7 @@ class C12:
             d = dict(base)
             d['points'] = pts[:j] + pts[j + 1:]
             d['knees'] = [k - 1 if k > j else k for k in ks]
-            if d['knees'][0] >= 1 and d['knees'][-1] <= len(d['points']) - 2:
-                out.append(d)
+            out.append(d)
         return out
 
     def sample(self, c):
